@@ -247,7 +247,7 @@ class Server(tasking.Tasker):
                     self.desire = ABORT
                     self.status = ABORTED
                     console.profuse("     Aborting Server {0}, bad control = {1}\n".format(
-                        self.name,  CommandNames[control]))
+                        self.name,  ControlNames.get(control, 'Unknown')))
 
                     self.close()
                     break #break out of while loop. this will cause stopIteration
